@@ -217,15 +217,16 @@ class Ctx:
                 if count:
                     self.states += res.distinct
                     self.transitions += res.generated
-                self.tlc_runs.append({"module": os.path.basename(module), "cfg": os.path.basename(cfg),
-                                      "generated": res.generated, "distinct": res.distinct,
-                                      "wall_s": round(dt, 1), "name": name or ""})
+                if count:
+                    self.tlc_runs.append({"module": os.path.basename(module), "cfg": os.path.basename(cfg),
+                                          "generated": res.generated, "distinct": res.distinct,
+                                          "wall_s": round(dt, 1), "name": name or ""})
                 return res
             if "Parsing or semantic analysis failed" in out:
                 break
             self.log("TLC tool failure (attempt %d, rc=%d) on %s; retrying" % (attempt + 1, rc, os.path.basename(module)))
         ol = last.out.splitlines()
-        ei = next((k for k, l in enumerate(ol) if l.startswith("Error:")), None)
+        ei = next((k for k, l in enumerate(ol) if l.startswith("Error:") or "*** Errors" in l or "***Parse Error***" in l), None)
         tail = "\n".join(ol[ei:ei + 25] if ei is not None else ol[-40:])
         raise ToolError("TLC failed on %s:\n%s" % (module, tail))
 
